@@ -636,6 +636,9 @@ class Context:
                 if not application.processes:
                     application.state = ApplicationStates.DELETED
                     del self.applications[application.application_name]
+                else:
+                    # the status of the remaining processes may have changed without the removed information
+                    application.update()
                 # send an application status when impacted
                 if application_impacted and self.external_publisher:
                     self.external_publisher.send_application_status(application.serial())
